@@ -35,6 +35,20 @@ STD_AXIOMS = {
     "ClassicalDedekindReals.sig_forall_dec": "stdlib real numbers",
     "FunctionalExtensionality.functional_extensionality_dep": "stdlib functional extensionality (via Reals)",
     "Classical_Prop.classic": "stdlib excluded middle",
+    "Coq.Logic.FunctionalExtensionality.functional_extensionality_dep": "stdlib functional extensionality",
+    "Coq.Reals.ClassicalDedekindReals.sig_not_dec": "stdlib real numbers",
+    "Coq.Reals.ClassicalDedekindReals.sig_forall_dec": "stdlib real numbers",
+    "Coq.Logic.Classical_Prop.classic": "stdlib excluded middle",
+    "Coq.Logic.ProofIrrelevance.proof_irrelevance": "stdlib proof irrelevance",
+    "ProofIrrelevance.proof_irrelevance": "stdlib proof irrelevance",
+    "Coq.Logic.Eqdep.Eq_rect_eq.eq_rect_eq": "stdlib Streicher K (Eqdep)",
+    "Eqdep.Eq_rect_eq.eq_rect_eq": "stdlib Streicher K (Eqdep)",
+    "Coq.Logic.JMeq.JMeq_eq": "stdlib JMeq_eq",
+    "JMeq.JMeq_eq": "stdlib JMeq_eq",
+    "Coq.Logic.PropExtensionality.propositional_extensionality": "stdlib propositional extensionality",
+    "PropExtensionality.propositional_extensionality": "stdlib propositional extensionality",
+    "Coq.Logic.Epsilon.epsilon_statement": "stdlib epsilon (via Reals libraries)",
+    "Coq.Logic.ClassicalEpsilon.constructive_indefinite_description": "stdlib indefinite description",
 }
 
 
@@ -267,6 +281,21 @@ def print_assumptions(props_mod: str, thms: Sequence[str], scratch: str) -> Dict
             elif not line.startswith(" ") and ":" in line and "." not in m.group(1):
                 res[cur].append(m.group(1))
     return res
+
+
+def coqchk(props_mod: str, timeout: int = 1500) -> Tuple[bool, List[str], str]:
+    """independent re-check of the compiled closure; returns (ok, axioms, tail of output)"""
+    p = subprocess.run(["timeout", str(timeout), "coqchk", "-silent", "-o", "-Q", COQ, "DV", "DV." + props_mod],
+                       capture_output=True, text=True, cwd=COQ)
+    out = p.stdout + p.stderr
+    axioms = []
+    m = re.search(r"\* Axioms:(.*?)\n\s*\n\* Constants", out, flags=re.S)
+    if m:
+        axioms = [a.strip() for a in m.group(1).split("\n") if a.strip() and a.strip() != "<none>"]
+    clean = all(re.search(rf"\* {k}: <none>", out) for k in
+                ("Constants/Inductives relying on type-in-type", r"Constants/Inductives relying on unsafe \(co\)fixpoints",
+                 "Inductives whose positivity is assumed"))
+    return p.returncode == 0 and clean, axioms, out[-800:]
 
 
 # rationals <-> Coq
